@@ -24,9 +24,9 @@ open PatchModel PatchModel.DriverFacts PatchModel.Section PatchModel.RunB
 /-! ### the search order of `locate_hunk` -/
 
 /-- for one fuzz value, `locate_hunk` looks at position `q` before it looks at position `p`: it goes forward from the search
-    start `g` to the end of the file (`size` lines), then backward from `g - 1` -/
+    start `g` to the end of the file (`size` lines; the end itself, position `size`, included: D109), then backward from `g - 1` -/
 def probedBefore (g size q p : Nat) : Prop :=
-  (g ≤ q ∧ q < p) ∨ (p < g ∧ ((g ≤ q ∧ q < size) ∨ (p < q ∧ q < g)))
+  (g ≤ q ∧ q < p) ∨ (p < g ∧ ((g ≤ q ∧ q ≤ size) ∨ (p < q ∧ q < g)))
 
 instance (g size q p : Nat) : Decidable (probedBefore g size q p) := by unfold probedBefore; infer_instance
 
@@ -68,16 +68,16 @@ theorem find?_range'_none (P : Nat → Bool) (a k : Nat) (h : ∀ q, a ≤ q →
   rw [h q this.1 this.2]; simp
 
 /-- the scan for one fuzz value returns the first position in its order at which the probe succeeds -/
-theorem find?_candidates_first (ss ml size p : Nat) (P : Nat → Bool) (hml : ml ≤ p) (hlt : p < size) (hss : ss ≤ size)
+theorem find?_candidates_first (ss ml size p : Nat) (P : Nat → Bool) (hml : ml ≤ p) (hle : p ≤ size) (hss : ss ≤ size)
     (hP : P p = true) (hfirst : ∀ q, probedBefore ss size q p → P q = false) :
     (candidates ss ml size).find? P = some p := by
   unfold candidates
   rw [List.find?_append]
   by_cases hf : ss ≤ p
-  · rw [find?_range'_first P (size - ss) ss p hf (by omega) hP
+  · rw [find?_range'_first P (size + 1 - ss) ss p hf (by omega) hP
       (fun q g1 g2 => hfirst q (Or.inl ⟨g1, g2⟩))]
     rfl
-  · rw [find?_range'_none P ss (size - ss) (fun q g1 g2 => hfirst q (Or.inr ⟨by omega, Or.inl ⟨g1, by omega⟩⟩))]
+  · rw [find?_range'_none P ss (size + 1 - ss) (fun q g1 g2 => hfirst q (Or.inr ⟨by omega, Or.inl ⟨g1, by omega⟩⟩))]
     simp only [Option.none_or]
     exact find?_range'_reverse_first P (ss - ml) ml p hml (by omega) hP
       (fun q g1 g2 => hfirst q (Or.inr ⟨by omega, Or.inr ⟨g1, by omega⟩⟩))
@@ -127,35 +127,32 @@ theorem locateHunk_first (file : List Line) (h : Hunk) (iw : Bool) (offset maxFu
       admissibleB file h iw maxFuzz q f = false) :
     locateHunk file h iw offset maxFuzz ml =
       some ⟨(p : Int), (f : Int), (p : Int) - (expectedLine h - 1 + offset)⟩ := by
-  have hlt := admissible_lt_length file h iw maxFuzz p f hwf hc hadm
+  have hle := admissible_le_length file h iw maxFuzz p f hadm
   obtain ⟨a1, a2, a3, _, _⟩ := (admissibleB_iff file h iw maxFuzz p f).1 hadm
-  have hmt := (hunkMatchesAt_iff_admissibleB file h iw maxFuzz p f a1 a2 a3 hlt).2 hadm
+  have hmt := (hunkMatchesAt_iff_admissibleB file h iw maxFuzz p f a1 a2 a3).2 hadm
   rw [fuzzPair_fst, fuzzPair_snd] at hmt a3
   rw [locateHunk_eq_loop file h iw offset maxFuzz ml hc]
   -- the probe is the placement spec for every fuzz up to `f`
-  have hprobe : ∀ f' q, f' ≤ f → q < file.length →
+  have hprobe : ∀ f' q, f' ≤ f →
       admissibleB file h iw maxFuzz q f' = false →
       hunkMatchesAt file h iw ((f' + prefixCtx h.lines) - max (prefixCtx h.lines) (suffixCtx h.lines))
         ((f' + suffixCtx h.lines) - max (prefixCtx h.lines) (suffixCtx h.lines)) q = false := by
-    intro f' q hle hqlt hna
+    intro f' q hle hna
     cases hm : hunkMatchesAt file h iw ((f' + prefixCtx h.lines) - max (prefixCtx h.lines) (suffixCtx h.lines))
         ((f' + suffixCtx h.lines) - max (prefixCtx h.lines) (suffixCtx h.lines)) q with
     | false => rfl
     | true =>
       have := (hunkMatchesAt_iff_admissibleB file h iw maxFuzz q f' (by omega) (by omega)
-        (by rw [fuzzPair_fst, fuzzPair_snd]; omega) hqlt).1 (by rw [fuzzPair_fst, fuzzPair_snd]; exact hm)
+        (by rw [fuzzPair_fst, fuzzPair_snd]; omega)).1 (by rw [fuzzPair_fst, fuzzPair_snd]; exact hm)
       rw [this] at hna; cases hna
   have hss : ml ≤ searchStart (expectedLine h - 1 + offset) ml file.length := searchStart_ge _ _ _
   have hss2 : searchStart (expectedLine h - 1 + offset) ml file.length ≤ max ml file.length := searchStart_le _ _ _
   refine locateLoop_first file h iw _ ml _ _ _ p f (by omega) a3 ?_ ?_ _ 0 (Nat.zero_le _) (by omega)
   · intro f' hf' q hq
     have hq' := (mem_candidates_searchStart _ ml file.length q).1 hq
-    exact hprobe f' q (by omega) hq'.2 (hless q f' hf' hq'.1)
-  · exact find?_candidates_first _ ml file.length p _ hml hlt (by omega) hmt
-      (fun q hq => by
-        by_cases hqlt : q < file.length
-        · exact hprobe f q (Nat.le_refl _) hqlt (hfirst q hq)
-        · exfalso; unfold probedBefore at hq; omega)
+    exact hprobe f' q (by omega) (hless q f' hf' hq'.1)
+  · exact find?_candidates_first _ ml file.length p _ hml hle (by omega) hmt
+      (fun q hq => hprobe f q (Nat.le_refl _) (hfirst q hq))
 
 /-- the text has moved: the old side is found exactly (fuzz 0) at `p`, and at no position that the scan visits before `p` -/
 theorem locateHunk_moved (file : List Line) (h : Hunk) (iw : Bool) (maxFuzz : Int) (p : Nat)
@@ -185,7 +182,7 @@ theorem locateHunk_fuzz_at_stated (file : List Line) (h : Hunk) (iw : Bool) (max
     (hless : ∀ q f', f' < f → admissibleB file h iw maxFuzz q f' = false) :
     locateHunk file h iw 0 maxFuzz 0 = some ⟨(g : Int), (f : Int), 0⟩ := by
   have he : expectedLine h = h.old.start := by unfold expectedLine; rw [if_neg hc]
-  have hlt := admissible_lt_length file h iw maxFuzz g f hwf hc hadm
+  have hle := admissible_le_length file h iw maxFuzz g f hadm
   have hs : searchStart (expectedLine h - 1 + 0) 0 file.length = g := by
     rw [he, Int.add_zero, hg]; exact searchStart_eq g 0 file.length (Nat.zero_le _) (by omega)
   have := locateHunk_first file h iw 0 maxFuzz 0 g f hwf hc (Nat.zero_le _) hadm (fun q f' hf' _ => hless q f' hf')
@@ -354,7 +351,7 @@ theorem admissibleB_of_exact (h : Hunk) (iw : Bool) (maxFuzz : Int) (X Y : List 
   rw [admissibleB_iff]
   have hl : 0 < h.lines.length := List.length_pos_iff.2 hne
   have hol : 0 < (oldOf h.lines).length := List.length_pos_iff.2 hold
-  refine ⟨by simpa using hmf, Nat.zero_le _, ?_, by simp; omega, by simp; omega, ?_⟩
+  refine ⟨by simpa using hmf, Nat.zero_le _, ?_, by simp; omega, by simp, ?_⟩
   · rw [fuzzPair_fst, fuzzPair_snd]; omega
   · intro j hj
     refine Or.inr (Or.inr ⟨(oldOf h.lines)[j], (oldOf h.lines)[j], ?_, by simp, lineEqB_self _ _⟩)
